@@ -152,7 +152,11 @@ DIRECTED = {
     "verif_sqdiff": [["x", "a"], ["square"], ["-", "*"]],
     # no unary operator: the libraries at even complexity are empty (check_results crashed on them before /repo d9ed802)
     "verif_nounary": [["x", "a"], [], ["-", "/"]],
+    # functions that lose a parameter when parsed while a higher-numbered one survives ((a0*(x-x)) - a1 is stored as -a1): the only
+    # rows whose chain holds a parameter renaming that is not behind a nan; first at complexity 7
+    "verif_minus_times": [["x", "a"], [], ["-", "*"]],
 }
+DIRECTED_NMAX = {"verif_minus_times": 7}
 DUPUNIQ = ("verif_dupuniq", [["x", "a"], ["log_abs", "inv"], ["+", "-", "*"]], [6])
 
 
@@ -161,7 +165,7 @@ def run_list(ctx):
     ns = list(range(1, (4 if ctx.quick else 5) + 1))
     runs = [(b, None, ns) for b in SHIPPED]
     runs += [(name, basis, ns) for name, basis in SUBBASES.items()]
-    runs += [(name, basis, list(range(1, 6))) for name, basis in DIRECTED.items()]
+    runs += [(name, basis, list(range(1, DIRECTED_NMAX.get(name, 5) + 1))) for name, basis in DIRECTED.items()]
     if not ctx.quick:
         runs.append(DUPUNIQ)
         rng = esrv.rng(ctx.seed, "C03/random-subbases")
